@@ -35,6 +35,8 @@ pub enum Val {
     List(Vec<Vec<u8>>),
     /// a fabric-scoped list: (fabric index, value); a fabric-filtered read shows the requester's entries only
     FabricList(Vec<(u8, u32)>),
+    /// an attribute whose handler fails every read (with the general failure code / with a constraint error)
+    Failing(bool),
 }
 
 #[derive(Clone, Debug)]
@@ -190,6 +192,7 @@ impl AsyncHandler for TestDm {
         }
         let value = self.spec.borrow().attr(a.endpoint_id, a.cluster_id, a.attr_id).map(|s| s.value.clone()).ok_or(ErrorCode::AttributeNotFound)?;
         match value {
+            Val::Failing(constraint) => Err(if constraint { ErrorCode::ConstraintError } else { ErrorCode::Failure }.into()),
             Val::U32(v) => writer.set(v),
             Val::Bytes(b) => {
                 let tag = writer.tag();
